@@ -36,6 +36,7 @@ import (
 	"net/http"
 	"net/http/httptest"
 	"net/http/httputil"
+	"os"
 	"regexp"
 	"runtime"
 	"sort"
@@ -499,6 +500,10 @@ func bodyBytes(seed uint64, n int) []byte {
 type originRT struct {
 	total   []byte
 	chunked bool
+	// framing of the response handed to the proxy: 0 Content-Length, 1 chunked,
+	// 2 unknown length (ContentLength -1, identity: ends with the connection),
+	// 3 ContentLength 0 with a non-empty body (what proxyutil.NewResponse(code, body, req) builds)
+	framing int
 }
 
 func (o *originRT) RoundTrip(req *http.Request) (*http.Response, error) {
@@ -517,10 +522,15 @@ func (o *originRT) RoundTrip(req *http.Request) (*http.Response, error) {
 	}
 	res.Status = fmt.Sprintf("%d %s", res.StatusCode, http.StatusText(res.StatusCode))
 	res.Body = io.NopCloser(bytes.NewReader(body))
-	if o.chunked {
+	switch {
+	case o.chunked || o.framing == 1:
 		res.ContentLength = -1
 		res.TransferEncoding = []string{"chunked"}
-	} else {
+	case o.framing == 2:
+		res.ContentLength = -1
+	case o.framing == 3:
+		res.ContentLength = 0
+	default:
 		res.ContentLength = int64(len(body))
 	}
 	return res, nil
@@ -570,7 +580,8 @@ func runIntegration(in []string) (out []string) {
 	out = append(out, m)
 
 	px := martian.NewProxy()
-	px.SetRoundTripper(&originRT{total: bodyBytes(seed, n), chunked: p["ch"] == "1"})
+	framing, _ := strconv.Atoi(p["ch"])
+	px.SetRoundTripper(&originRT{total: bodyBytes(seed, n), framing: framing})
 	px.SetTimeout(5 * time.Second)
 	go px.Serve(tsl)
 	defer func() {
@@ -1039,8 +1050,12 @@ func main() {
 	cfg := hx.ParseFlags()
 	defer cfg.Close()
 	n := 0
+	trace := os.Getenv("VERIF_C18_TRACE") != ""
 	emit := func(kind string, in []string) {
 		n++
+		if trace {
+			fmt.Fprintf(os.Stderr, "start %s%d %s\n", kind, n, strings.Join(in, " "))
+		}
 		cfg.Emit(hx.Case{Name: fmt.Sprintf("%s%d", kind, n), In: in, Out: runCase(in)})
 		cfg.Count("kind=" + in[0])
 	}
